@@ -213,8 +213,17 @@ def cli_part(ctx, only=None):
     jobs = []
     for gname in sorted(groups):
         for slow, not_c, ren in itertools.product([False, True], repeat=3):
-            for rem in ([], ['BlankPass'] if gname != 'custom' else ['ClexPass::rename-toks']):
-                if rem and (slow or not ren):
+            rems = [[], ['BlankPass'] if gname != 'custom' else ['ClexPass::rename-toks']]
+            # names of entries that carry a max-transforms limit (the name to give is the one without the ` (N T)` suffix), and
+            # several names at once
+            if gname == 'all':
+                rems += [['ClangBinarySearchPass::replace-function-def-with-decl'], ['ClangBinarySearchPass::remove-unused-function', 'LinesPass::0']]
+            if gname == 'custom':
+                rems += [['BalancedPass::curly'], ['ClexPass::rename-toks', 'CommentsPass', 'BalancedPass::curly']]
+            for rem in rems:
+                if rem and (slow or not ren) and len(rems) == 2:
+                    continue
+                if rem and len(rems) > 2 and rem not in rems[:2] and (not_c or (slow and gname == 'all')):
                     continue
                 jobs.append((gname, slow, not_c, ren, rem))
     if only is not None:
